@@ -563,9 +563,12 @@ func c14Run(c *lib.Ctx, scaleDown bool) {
 		c.Feat("chained_second_savepoints", 1)
 	}
 	y.waitCaughtUp()
-	if !y.waitApplied(o.perSplit, cluster.Watchdog) {
+	if ok, decided := y.appliedOrDrained(o.perSplit); !ok {
 		y.checkHandlers()
-		c.Fail("record-lost", y.wit(), "after restoring from savepoint %d and reading every split to its end, not every keyed event of the input took effect on state", spID)
+		if !decided {
+			c.Inconclusive("after restoring from savepoint %d every split was read to its end; not every keyed event has taken effect yet and the draining checkpoint did not complete within the bound (job errors %v; goroutines: %s)", spID, y.cl.JobErrors(), lib.BlockedSummary())
+		}
+		c.Fail("record-lost", y.wit(), "after restoring from savepoint %d, reading every split to its end and publishing a checkpoint taken after that, not every keyed event of the input took effect on state", spID)
 	}
 	y.checkpoint(8 * time.Second)
 	y.checkHandlers()
